@@ -17,7 +17,9 @@ DRIVERS = ["driver"]
 RULE = ("(a) direct V3CoreLib.update_fee on random (previous close | nan, close, range, own/pool liquidity, volumes, decimals, fee tier, tick dtype "
         "python-int/int64/float64) with a boundary stream (close or previous close exactly on a bound, one tick inside, jump across the whole range "
         "both ways, stationary inside/outside, zero liquidity, zero pool); (b) real Actuator.run with a scripted strategy that adds / removes / "
-        "collects / swaps in initialize, before_bar, on_bar and after_bar of random bars, every set_market_status and update() observed; in "
+        "collects / swaps in initialize, before_bar, on_bar and after_bar of random bars, every set_market_status and update() observed, and after every update() "
+        "the market's own get_market_balance().base_uncollected/quote_uncollected compared with the exact sum of the held positions' pending "
+        "amounts mapped by is_token0_quote (buckets uncollected:<orientation>:<tokens pending>:<held>:<transferred out>:<exact|rounded>); in "
         "half of the runs the broker carries a second, never-written market registered before or after the one under test. "
         "Buckets = (stream, path class, model branch tag, outcome, dtype | phase pattern of the bar).")
 TRUSTED = ["arithmetic theorems are for the exact rational semantics; the driver reproduces the 35-digit Decimal results bit-exactly and the oracle "
@@ -353,13 +355,20 @@ def exec_run(pool, case, extra=None):
     def upd():
         before = U.state_json(market, act.broker)
         err = None
+        bal = None
         try:
             orig_update()
+            # what the market itself reports as uncollected fees right after the bar's accrual (UniLpBalance.base_uncollected / quote_uncollected)
+            try:
+                mb = market.get_market_balance()
+                bal = {"base": U.num(Decimal(mb.base_uncollected)), "quote": U.num(Decimal(mb.quote_uncollected)), "count": int(mb.position_count)}
+            except Exception as e:  # noqa: BLE001
+                bal = {"error": type(e).__name__}
         except Exception as e:  # noqa: BLE001
             err = type(e).__name__
             raise
         finally:
-            recs.append(("update", before, U.state_json(market, act.broker), err))
+            recs.append(("update", before, U.state_json(market, act.broker), err, bal))
 
     def setst(ms, price):
         before = U.state_json(market, act.broker)
@@ -376,6 +385,60 @@ def exec_run(pool, case, extra=None):
     return recs, run_err, oplog
 
 
+def digits35(x: Fraction) -> bool:
+    """is the rational x a decimal number of at most 35 significant digits (i.e. a value a 35-digit Decimal sum returns unrounded)"""
+    n, d = abs(x.numerator), x.denominator
+    while d % 2 == 0:
+        d //= 2
+        n *= 5
+    while d % 5 == 0:
+        d //= 5
+        n *= 2
+    if d != 1:
+        return False
+    while n and n % 10 == 0:
+        n //= 10
+    return len(str(n)) <= 35
+
+
+def check_uncollected(ctx, pool, k, after, bal, rep, tagp):
+    """UniLpBalance.base_uncollected / quote_uncollected, as get_market_balance() reports them right after update(), against the exact sum of the
+    pending amounts of the positions the market holds (transferred-out positions are not counted by the code, nor here), token0/token1 mapped to
+    base/quote by is_token0_quote.  Exact when every partial sum has at most 35 digits (then no Decimal addition rounded), else 1e-30 relative."""
+    if bal is None:
+        return
+    q0 = bool(pool.is_token0_quote)
+    held = [p for p in after["positions"] if not p["tr"]]
+    if "error" in bal:
+        ctx.case(f"uncollected:{'q0' if q0 else 'q1'}:raises-{bal['error']}")
+        ctx.violate(f"uncollected.raises.{bal['error']}", f"bar {k}: get_market_balance() raised {bal['error']} after update()", rep)
+        return
+    s0 = s1 = Fraction(0)
+    exact = True
+    for p in held:
+        s0 += Fraction(p["p0"])
+        s1 += Fraction(p["p1"])
+        exact = exact and digits35(s0) and digits35(s1)
+    e_base, e_quote = (s1, s0) if q0 else (s0, s1)
+    n0 = sum(1 for p in held if Fraction(p["p0"]) != 0)
+    n1 = sum(1 for p in held if Fraction(p["p1"]) != 0)
+    both = sum(1 for p in held if Fraction(p["p0"]) != 0 and Fraction(p["p1"]) != 0)
+    cls = "none" if not held else ("both-tokens" if both else ("one-token" if n0 or n1 else "zero"))
+    ctx.case(f"uncollected:{'q0' if q0 else 'q1'}:{cls}:held{min(len(held), 3)}:{'out' if len(held) < len(after['positions']) else 'all-in'}:"
+             f"{'exact' if exact else 'rounded'}")
+    if both:
+        ctx.count("uncollected_checked_both_tokens_" + ("token0_quote" if q0 else "token1_quote"))
+    if bal["count"] != len(held):
+        ctx.violate("uncollected.position_count", f"bar {k}: position_count {bal['count']} but {len(held)} positions are held", rep)
+    for name, got, exp in (("base", Fraction(bal["base"]), e_base), ("quote", Fraction(bal["quote"]), e_quote)):
+        ok = got == exp if exact else abs(got - exp) <= TOL * len(held) * abs(exp)
+        if not ok:
+            tok = ("token1" if q0 else "token0") if name == "base" else ("token0" if q0 else "token1")
+            ctx.violate(f"uncollected.{name}", f"bar {k}: {name}_uncollected = {fmt(got)} but the held positions' pending {tok} amounts sum to {fmt(exp)} "
+                        f"(is_token0_quote={q0}, {len(held)} held of {len(after['positions'])} positions)", rep)
+        ctx.dev(got, exp)
+
+
 def check_run(ctx, pool, case, recs, run_err, rep, reqs, tagp):
     ticks, d0, d1 = case["ticks"], pool.token0.decimal, pool.token1.decimal
     fee = Fraction(pool.fee_rate)
@@ -387,7 +450,7 @@ def check_run(ctx, pool, case, recs, run_err, rep, reqs, tagp):
             raw = {"tick": str(ticks[k]), "liq": str(case["liqs"][k]), "in0": str(case["in0"][k]), "in1": str(case["in1"][k]), "price": after["row"]["price"]}
             reqs.append((rep, {"fn": "uni.setStatus", "state": before, "raw": raw, "ts": k, "open": True}, ("set", after, k)))
         else:
-            _, before, after, err = r
+            _, before, after, err, bal = r
             k = before["ts"]
             reqs.append((rep, {"fn": "uni.update", "pool": rep["pool"], "state": before}, ("update", after, err)))
             prev = ticks[k - 1] if k >= 1 else ticks[0]
@@ -398,6 +461,7 @@ def check_run(ctx, pool, case, recs, run_err, rep, reqs, tagp):
             if err is not None:
                 ctx.violate(f"update.raises.{err}.{case['dtype']}", f"update() raised {err} in bar {k} (tick {prev} -> {ticks[k]}, tick dtype {case['dtype']})", rep)
                 continue
+            check_uncollected(ctx, pool, k, after, bal, rep, tagp)
             # several positions (theorems C08_shares_sum / C08_total_fee_le_volume): whatever the ranges, all positions together earn at most
             # volume x fee rate x (own total / (pool + own total)) per token, and each at most what it would earn alone, own / (pool + own)
             pool_liq = Fraction(case["liqs"][k])
